@@ -267,6 +267,22 @@ ROUND8 = {
     "C20": "(A8) Notifier::handle() answers None only when Weak::upgrade() does; the flag field is found by role.",
 }
 
+ROUND9 = {
+    "C01": "(P18) the explicit panic sites of lexer / parser / syntax configuration are a reviewed table; (P19) the size hint every engine iterator reports is backed by memory or clamped (one known finding); (P20) every windows / chunks / step_by size is provably non-zero.",
+    "C02": "(S4c) every site that turns the text of a finished capture into a value has a safe-marking alternative.",
+    "C04": "(K11) in the interpreter's arithmetic / membership arms the value pushed is the result of the shared operator function only.",
+    "C06": "(I11) the template-name expressions of include / import / from-import / extends are visited by the assignment tracker (slice of C18.W1).",
+    "C07": "(V14) a filter that sorts and then groups neighbours uses one comparator with the same flags for both.",
+    "C08": "(N11) integer <-> float casts in the value core occur only in the exactness-aware conversions.",
+    "C12": "(M11) the twin argument conversions (with / without mutable state) both ask the undefined behaviour.",
+    "C13": "(G8) nothing inside the engine reads State::fuel_levels.",
+    "C15": "(U11) every field of an engine type with interior mutability is in a reviewed table.",
+    "C16": "(T10) the serde bridge uses the string view of a value only under kind() == String.",
+    "C18": "W3 reads the tracker's expression visitor through wrappers (no extra condition on reporting a variable).",
+    "C19": "(O10) the error-path pairing of C05.B3/B4 is a clause (a failed write on a kept State leaves it closed); (O4) take_err hands the original error back only when no io::Error was stored.",
+    "C20": "(A9) the template-store rules of C15 (clear empties every tier, a lookup records only loaded templates) are a clause for fast reload.",
+}
+
 NOT_APPLICABLE = {
     "C03": "equality of rendered output with a reference semantics over all programs x contexts quantifies over runtime values; its structural part (frame/capture/escape pairing, jump nesting) is decided under C05, nothing else is visible in the shape of the code, and a reference interpreter would be a different technique",
     "C09": "Python slice semantics over (kind, len, start, stop, step) is integer arithmetic on runtime values: no sound static argument in reach bounds it; the panics the slicing code hid (empty / inverted / extreme bounds) were found by the C01 taint rule and repaired, but the selected elements are value-level and not claimed",
@@ -285,6 +301,8 @@ def main():
             tech, text, ref, note = CLAIMED[p]
             if p in ROUND8:
                 text = text + " Round 8: " + ROUND8[p]
+            if p in ROUND9:
+                text = text + " Round 9: " + ROUND9[p]
             checks.append({
                 "property_id": p,
                 "quick_cmd": "./check %s --tier quick" % p,
